@@ -1,0 +1,78 @@
+//go:build verif
+
+package verifapi
+
+import (
+	"github.com/tidwall/geojson"
+	"github.com/tidwall/geojson/geo"
+	"github.com/tidwall/geojson/geometry"
+	"github.com/tidwall/tile38/internal/collection"
+	"github.com/tidwall/tile38/internal/field"
+	"github.com/tidwall/tile38/internal/object"
+)
+
+// NearbyDist is the distance function of NEARBY (geodeticDistAlgo in
+// internal/collection/geodesic.go) from the point (lat, lon) to a rectangle,
+// in metres. A degenerate rectangle is a point.
+func NearbyDist(lat, lon, minLat, minLon, maxLat, maxLon float64) float64 {
+	return collection.VerifNearbyDist(lat, lon, minLat, minLon, maxLat, maxLon)
+}
+
+// RtreeRect is the float32 widening of a rectangle entering the R-tree.
+func RtreeRect(minLat, minLon, maxLat, maxLon float64) (float64, float64, float64, float64) {
+	return collection.VerifRtreeRect(minLat, minLon, maxLat, maxLon)
+}
+
+// Haversine is geo.DistanceTo: the great-circle distance between two points
+// in metres, the library's independent implementation.
+func Haversine(latA, lonA, latB, lonB float64) float64 {
+	return geo.DistanceTo(latA, lonA, latB, lonB)
+}
+
+// KnnCollection is an in-process collection.Collection (the real R-tree, the
+// real distance function, the real Collection.Nearby) for the failing-input
+// search of the C13 harness: the same traversal as the server's NEARBY
+// without the network round trip.
+type KnnCollection struct{ c *collection.Collection }
+
+// NewKnnCollection returns an empty collection.
+func NewKnnCollection() *KnnCollection { return &KnnCollection{collection.New()} }
+
+// Set stores a point (minLat == maxLat && minLon == maxLon) or a rectangle.
+func (k *KnnCollection) Set(id string, minLat, minLon, maxLat, maxLon float64) {
+	var g geojson.Object
+	if minLat == maxLat && minLon == maxLon {
+		g = geojson.NewPoint(geometry.Point{X: minLon, Y: minLat})
+	} else {
+		g = geojson.NewRect(geometry.Rect{
+			Min: geometry.Point{X: minLon, Y: minLat},
+			Max: geometry.Point{X: maxLon, Y: maxLat},
+		})
+	}
+	k.c.Set(object.New(id, g, 0, field.List{}))
+}
+
+// Delete removes an object.
+func (k *KnnCollection) Delete(id string) { k.c.Delete(id) }
+
+// Nearby runs Collection.Nearby from (lat, lon) without cursor, radius or
+// limit and returns ids and distances in iteration order.
+func (k *KnnCollection) Nearby(lat, lon float64) (ids []string, dists []float64) {
+	target := geojson.NewPoint(geometry.Point{X: lon, Y: lat})
+	k.c.Nearby(target, nil, nil, func(o *object.Object, dist float64) bool {
+		ids = append(ids, o.ID())
+		dists = append(dists, dist)
+		return true
+	})
+	return
+}
+
+// NodeKey is the key a node rectangle of the real R-tree received during a
+// traversal (collection.VerifNodeKey).
+type NodeKey = collection.VerifNodeKey
+
+// Trace runs the traversal and also reports every node rectangle the
+// distance function was evaluated on, with its key.
+func (k *KnnCollection) Trace(lat, lon float64) (nodes []NodeKey, ids []string, dists []float64) {
+	return k.c.VerifNearbyTrace(lat, lon)
+}
